@@ -303,6 +303,11 @@ class NoiseWMS(object):
         call.extra['offgrid'] = off
         call.extra['epoch'] = self.state['epoch']
         fmt = q['format'] or 'image/png'
+        a = self.state.get('alpha')
+        if a and arr.shape[2] == 3 and 'png' in fmt:
+            # a half transparent overlay: the same NOISE colours with one constant alpha value
+            import numpy as _np
+            arr = _np.dstack([arr, _np.full(arr.shape[:2], int(a), dtype=arr.dtype)])
         return Resp(encode(arr, fmt), fmt.split(';')[0])
 
 
